@@ -277,12 +277,12 @@ inductive TyClass where
 deriving DecidableEq, Repr, Inhabited
 
 inductive Use where
-  | getattr | subscript | call | fmtarg | template | escape | strconv | reenter
+  | getattr | subscript | call | fmtarg | template | escape | strconv | reenter | probe
 deriving DecidableEq, Repr, Inhabited
 
 def Use.hostTouch : Use → Bool
   | .getattr | .subscript | .call | .fmtarg | .template | .escape => true
-  | .strconv | .reenter => false
+  | .strconv | .reenter | .probe => false
 
 structure FactRow where
   fn : List Char := []          -- yaql name of the function
